@@ -85,7 +85,7 @@ def layouts_matrix(ctx: Ctx):
     for pair in PAIRS:
         picked = disp.get(pair)
         if picked is None:
-            ctx.violated("dispatch", f"{LY.MCM}::_BaseCubeCounts.factory[{pair}]", "no class", "a count class for every kind pair", "factory dispatch must be total over the kind square")
+            ctx.undecided("dispatch", f"{LY.MCM}::_BaseCubeCounts.factory[{pair}]", "no class derived for this kind pair", "a count class for every kind pair")
             continue
         ci, _leaf = picked
         ctx.count("count classes (matrix)")
@@ -116,7 +116,7 @@ def layouts_stripe(ctx: Ctx):
     disp = stripe_dispatch(ctx)
     for (k,), picked in disp.items():
         if picked is None:
-            ctx.violated("dispatch", f"{LY.SCM}::_BaseCubeCounts.factory[{k}]", "no class", "a count class per stripe kind")
+            ctx.undecided("dispatch", f"{LY.SCM}::_BaseCubeCounts.factory[{k}]", "no class derived for this kind", "a count class per stripe kind")
             continue
         ci, _ = picked
         ctx.count("count classes (stripe)")
